@@ -40,6 +40,22 @@ const MAXJOBS: usize = 4096;
 const RESCUE_BASE: usize = MAXJOBS - 256;
 const F170: &str = "F170:asyncify-dispatch-stranded";
 
+/// Set when the pool stopped making progress for good (a defect the monitors have already reported):
+/// threads may have been left behind, so the remaining cases are skipped instead of waited for.
+static ABANDONED: std::sync::atomic::AtomicBool = std::sync::atomic::AtomicBool::new(false);
+/// cases in which an accepted job never delivered; a handful of them is systemic
+static LOST: AtomicUsize = AtomicUsize::new(0);
+
+fn abandoned() -> bool {
+    ABANDONED.load(SeqCst)
+}
+
+fn note_lost() {
+    if LOST.fetch_add(1, SeqCst) >= 4 {
+        ABANDONED.store(true, SeqCst);
+    }
+}
+
 // ---------------------------------------------------------------------------------------------
 // observing the process' threads
 
@@ -105,6 +121,7 @@ fn wait_quiet() -> Option<usize> {
             last = usize::MAX;
         }
         if t0.elapsed() > Duration::from_secs(10) {
+            ABANDONED.store(true, SeqCst);
             return None;
         }
         // leave the CPU to the threads we are waiting for
@@ -125,6 +142,7 @@ fn wait_alone() -> bool {
             return true;
         }
         if t0.elapsed() > Duration::from_secs(10) {
+            ABANDONED.store(true, SeqCst);
             return false;
         }
         thread::sleep(Duration::from_micros(200));
@@ -435,9 +453,18 @@ fn watch(
     let mut patience = Duration::from_millis(1500);
     let mut checked = Instant::now();
     let mut dead = 0;
+    let started = Instant::now();
     loop {
         if done() {
             return stalled;
+        }
+        if started.elapsed() > Duration::from_secs(20) {
+            // rescuing does not help: dispatch is refused or blocked for good
+            ABANDONED.store(true, SeqCst);
+            return Some((
+                "C17:dispatch-starved".to_string(),
+                format!("limit={limit} timeout_ms={tmo_ms}: dispatch neither accepted nor handed back within 20 s (retry loop / blocking send never ends)"),
+            ));
         }
         let n = sh.progress();
         let mut fire = None;
@@ -631,13 +658,15 @@ fn exec_det(case: &Case, ex: &mut Exec) {
                 if let Some((sig, detail)) = watch(p, &sh, &|| h.is_finished(), &|| gates.len(), limit, tmo.as_millis() as u64) {
                     ex.fail(sig, detail);
                 }
-                let _ = h.join();
-                match drx.recv().unwrap_or_else(|_| Err("dispatch thread died".into())) {
+                if h.is_finished() {
+                    let _ = h.join();
+                }
+                match drx.try_recv().unwrap_or_else(|_| Err("dispatch never returned".into())) {
                     Ok(Ok(())) => {
                         sh.push(Ev::RetOk(0, j));
                         accepted.push(j);
                         gates.insert(j, gtx);
-                        match beg_rx.recv_timeout(Duration::from_secs(10)) {
+                        match beg_rx.recv_timeout(Duration::from_secs(4)) {
                             Ok((bj, bw)) if bj == j => {
                                 if idled {
                                     retired_then_ran = true;
@@ -652,6 +681,7 @@ fn exec_det(case: &Case, ex: &mut Exec) {
                             }
                             Err(_) => {
                                 ex.fail("C17:lost-job", format!("accepted job {j} did not start within 10 s (limit {limit})"));
+                                note_lost();
                                 "lost".into()
                             }
                         }
@@ -682,7 +712,7 @@ fn exec_det(case: &Case, ex: &mut Exec) {
                 Ok(j) => match gates.remove(&j) {
                     Some(g) => {
                         let _ = g.send(());
-                        match res_rx.recv_timeout(Duration::from_secs(10)) {
+                        match res_rx.recv_timeout(Duration::from_secs(4)) {
                             Ok((rj, out, sum)) => {
                                 if rj != j || sum != checksum(&payload_of(sh.salt, j)) {
                                     ex.fail("C17:result", format!("result of job {rj} (sum {sum}) arrived for job {j}"));
@@ -694,6 +724,7 @@ fn exec_det(case: &Case, ex: &mut Exec) {
                             }
                             Err(_) => {
                                 ex.fail("C17:lost-job", format!("released job {j} never finished"));
+                                note_lost();
                                 "lost".into()
                             }
                         }
@@ -723,7 +754,7 @@ fn exec_det(case: &Case, ex: &mut Exec) {
     let pending: Vec<usize> = gates.keys().copied().collect();
     gates.clear();
     for _ in &pending {
-        match res_rx.recv_timeout(Duration::from_secs(10)) {
+        match res_rx.recv_timeout(Duration::from_secs(4)) {
             Ok((rj, out, sum)) => {
                 if sum != checksum(&payload_of(sh.salt, rj)) {
                     ex.fail("C17:result", format!("job {rj}: payload checksum differs"));
@@ -732,6 +763,7 @@ fn exec_det(case: &Case, ex: &mut Exec) {
             }
             Err(_) => {
                 ex.fail("C17:lost-job", "a released job never finished");
+                note_lost();
                 break;
             }
         }
@@ -853,6 +885,7 @@ fn run_conc(limit: usize, tmo_ms: u64, scripts: &[Vec<Spec>], retry: bool, pace_
             for (sp, &j) in script.iter().zip(&my_ids) {
                 let mut job = make_job(&sh, j, sp.kind, Wait::Sleep(Duration::from_micros(sp.dur_us)), &res_tx, None);
                 sh.push(Ev::Call(d, j));
+                let t_call = Instant::now();
                 loop {
                     match catch(|| pool.dispatch(job)) {
                         Ok(Ok(())) => {
@@ -864,10 +897,17 @@ fn run_conc(limit: usize, tmo_ms: u64, scripts: &[Vec<Spec>], retry: bool, pace_
                             if !intact(&sh, &back, j, sp.kind) {
                                 outcome.lock().unwrap().2.push(("C17:refused-intact".into(), format!("dispatch handed back a different closure for job {j}")));
                             }
-                            if retry {
+                            if retry && t_call.elapsed() < Duration::from_secs(8) && !abandoned() {
                                 job = back;
                                 thread::yield_now();
                                 continue;
+                            }
+                            if retry {
+                                ABANDONED.store(true, SeqCst);
+                                outcome.lock().unwrap().2.push((
+                                    "C17:dispatch-starved".into(),
+                                    format!("limit={limit}: the retry loop for job {j} was refused for 8 s"),
+                                ));
                             }
                             sh.push(Ev::RetBusy(d, j));
                             outcome.lock().unwrap().1.push(j);
@@ -895,7 +935,9 @@ fn run_conc(limit: usize, tmo_ms: u64, scripts: &[Vec<Spec>], retry: bool, pace_
     }
     let stalled = watch(&pool, &sh, &|| hs.iter().all(|h| h.is_finished()), &|| hs.iter().filter(|h| !h.is_finished()).count(), limit, tmo_ms);
     for h in hs {
-        let _ = h.join();
+        if h.is_finished() {
+            let _ = h.join();
+        }
     }
     let (mut accepted, mut refused, mut problems) = {
         let mut o = outcome.lock().unwrap();
@@ -905,7 +947,7 @@ fn run_conc(limit: usize, tmo_ms: u64, scripts: &[Vec<Spec>], retry: bool, pace_
     let mut finished = HashMap::new();
     let collect = |n: usize, finished: &mut HashMap<usize, Out>, problems: &mut Vec<(String, String)>| {
         for _ in 0..n {
-            match res_rx.recv_timeout(Duration::from_secs(10)) {
+            match res_rx.recv_timeout(Duration::from_secs(4)) {
                 Ok((j, out, sum)) => {
                     if sum != checksum(&payload_of(salt, j)) {
                         problems.push(("C17:result".into(), format!("job {j}: payload checksum differs")));
@@ -916,13 +958,16 @@ fn run_conc(limit: usize, tmo_ms: u64, scripts: &[Vec<Spec>], retry: bool, pace_
                 }
                 Err(_) => {
                     problems.push(("C17:lost-job".into(), format!("only {} of the accepted jobs delivered a result (limit {limit})", finished.len())));
+                    note_lost();
                     break;
                 }
             }
         }
     };
-    collect(accepted.len(), &mut finished, &mut problems);
-    if tail {
+    if !abandoned() {
+        collect(accepted.len(), &mut finished, &mut problems);
+    }
+    if tail && !abandoned() {
         // let every worker retire, then a later job must still run
         thread::sleep(Duration::from_millis(tmo_ms.min(1000) * 3 + 5));
         let j = kinds.len();
@@ -956,7 +1001,7 @@ fn run_conc(limit: usize, tmo_ms: u64, scripts: &[Vec<Spec>], retry: bool, pace_
             }
         });
         problems.extend(watch(&pool, &sh, &|| h.is_finished(), &|| 0, limit, tmo_ms));
-        match h.join().unwrap_or(2) {
+        match if h.is_finished() { h.join().unwrap_or(2) } else { 2 } {
             0 => {
                 accepted.push(j);
                 collect(1, &mut finished, &mut problems);
@@ -970,7 +1015,9 @@ fn run_conc(limit: usize, tmo_ms: u64, scripts: &[Vec<Spec>], retry: bool, pace_
     }
     drop(pool);
     // workers see the disconnect and leave; rescue threads (if any) are done by then
-    wait_alone();
+    if !abandoned() {
+        wait_alone();
+    }
     let (ev, maxrun, distinct_workers) = {
         let l = sh.log.lock().unwrap_or_else(|p| p.into_inner());
         (l.ev.clone(), l.maxrun, l.workers.len())
@@ -1101,6 +1148,9 @@ fn exec_prx(w: &[&str], salt: u64, ex: &mut Exec) -> String {
         ex.fail(sig, format!("{detail} (inside Proactor::push -> push_blocking)"));
     }
     for h in hs {
+        if !h.is_finished() {
+            continue; // reported by the watchdog; the thread is left behind
+        }
         match h.join() {
             Ok(Ok(outs)) => {
                 for (j, o) in outs {
@@ -1222,6 +1272,11 @@ fn exec(case: &Case) -> Exec {
 
 fn exec_inner(case: &Case) -> Exec {
     let mut ex = Exec::new();
+    if abandoned() && !case.lines.first().map(|l| l.starts_with("hist")).unwrap_or(false) {
+        ex.out = case.lines.iter().map(|_| "abandoned".to_string()).collect();
+        ex.tag("abandoned");
+        return ex;
+    }
     let first: Vec<&str> = case.lines.first().map(|l| l.split_whitespace().collect()).unwrap_or_default();
     match first.first().copied() {
         Some("hist") => exec_hist(case, &mut ex),
@@ -1347,10 +1402,10 @@ fn generate_inner(tier: &str, rng: &mut Rng) -> Vec<Case> {
     let thorough = tier == "thorough";
     let mut cases = vec![];
     // 1. forced schedules
-    for i in 0..if thorough { 10_000 } else { 300 } {
+    for i in 0..if thorough { 5_000 } else { 300 } {
         cases.push(gen_det_long(rng, format!("det/long/{i}")));
     }
-    for i in 0..if thorough { 150 } else { 6 } {
+    for i in 0..if thorough { 80 } else { 6 } {
         let tmo = *rng.pick(&[150u64, 200]);
         cases.push(gen_det_short(rng, format!("det/short/{i}"), tmo));
     }
@@ -1395,7 +1450,7 @@ fn generate_inner(tier: &str, rng: &mut Rng) -> Vec<Case> {
         }
     }
     // 2. recorded concurrent histories (the real pool runs now; the history is the case)
-    for i in 0..if thorough { 2_500 } else { 120 } {
+    for i in 0..if thorough { 1_500 } else { 120 } {
         let nd = rng.range(1, 4) as usize;
         let limit = if i % 3 == 0 { rng.range(1, 4) } else { rng.range(1, 8) };
         let tmo = *rng.pick(&[50u64, 100, 1000]);
@@ -1404,17 +1459,20 @@ fn generate_inner(tier: &str, rng: &mut Rng) -> Vec<Case> {
         let tail = tmo == 50 && rng.chance(1, 8);
         let scripts = gen_scripts(rng, nd, 8, 1500, true);
         let salt = rng.next();
+        if abandoned() {
+            continue;
+        }
         cases.push(record_hist(format!("hist/{i}"), limit as usize, tmo, &scripts, retry, pace, tail, salt));
     }
     // 3. live concurrent runs with the retry loop: raw pool, then Proactors sharing a pool
-    for i in 0..if thorough { 600 } else { 30 } {
+    for i in 0..if thorough { 400 } else { 30 } {
         let nd = rng.range(1, 4) as usize;
         let limit = if rng.chance(1, 30) { 0 } else { rng.range(1, 8) };
         let tmo = *rng.pick(&[50u64, 1000]);
         let scripts = gen_scripts(rng, nd, 6, 1000, true);
         cases.push(Case { name: format!("conc/{i}"), lines: vec![conc_line("conc", limit, tmo, "", &scripts)] });
     }
-    for i in 0..if thorough { 400 } else { 24 } {
+    for i in 0..if thorough { 300 } else { 24 } {
         let nd = rng.range(1, 4) as usize;
         let limit = rng.range(1, 8);
         let tmo = *rng.pick(&[50u64, 1000]);
